@@ -117,6 +117,28 @@ theorem matchName_exact {re : NameRe} {full : Bool} {s : Str} (h : matchName re 
     · next e => exact absurd e hn
     · exact absurd h2 (by decide)
 
+/-- with the end anchor `\\Z` (F2 repaired) `re.match` is an exact match -/
+theorem matchName_exact_of_fixed {re : NameRe} {full : Bool} {s : Str} (hd : re.dollar = false)
+    (h : matchName re full s = true) : matchExact re s = true := by
+  unfold matchName at h
+  simpa [hd] using h
+
+/-- **F2 is repaired in the tree the proofs are checked against**: a name the legacy metric pattern accepts does not end
+in a line feed (this proof breaks if the pattern goes back to `$`) -/
+theorem legacyMetric_no_newline {n : Str} (hv : isValidLegacyMetricName n = true) : n.getLast? ≠ some '\n' := by
+  have hm : matchExact metricNameRe n = true := matchName_exact_of_fixed rfl hv
+  have hc := (matchExact_metric_chars hm).2
+  intro hl
+  exact legacyChar_ne (hc _ (List.mem_of_getLast? hl)) (by decide) rfl
+
+theorem legacyLabel_no_newline {k : Str} (hv : isValidLegacyLabelname k = true) : k.getLast? ≠ some '\n' := by
+  unfold isValidLegacyLabelname at hv
+  simp only [Bool.and_eq_true] at hv
+  have hm : matchExact labelNameRe k = true := matchName_exact_of_fixed rfl hv.1
+  have hc := (matchExact_metric_chars (matchExact_label_metric hm)).2
+  intro hl
+  exact legacyChar_ne (hc _ (List.mem_of_getLast? hl)) (by decide) rfl
+
 theorem matchExact_matchName {re : NameRe} {full : Bool} {s : Str} (h : matchExact re s = true) :
     matchName re full s = true := by
   unfold matchName; simp [h]
